@@ -16,6 +16,7 @@
 import abc
 import copy
 import enum
+import functools
 import inspect
 import json
 import os
@@ -1747,8 +1748,10 @@ def lt(left: Any, right: Any) -> bool:
     # only when left has a smaller length.
     return len(left) < len(right)
   elif isinstance(left, dict):
-    lkeys = list(left.keys())
-    rkeys = list(right.keys())
+    # NOTE: keys are compared in sorted order (not insertion order), so that
+    # `lt` is consistent with `eq`, which ignores the order of keys.
+    lkeys = _sorted_keys(left)
+    rkeys = _sorted_keys(right)
     min_len = min(len(lkeys), len(rkeys))
     for i in range(min_len):
       kl, kr = lkeys[i], rkeys[i]
@@ -1756,13 +1759,21 @@ def lt(left: Any, right: Any) -> bool:
         if not eq(left[kl], right[kr]):
           return lt(left[kl], right[kr])
       else:
-        return kl < kr
+        return lt(kl, kr)
     # `left` and `right` are equal so far, so `left is less than `right`
     # only when left has fewer keys.
     return len(lkeys) < len(rkeys)
   elif hasattr(left, 'sym_lt'):
     return left.sym_lt(right)
   return left < right
+
+
+def _sorted_keys(value: Dict[Any, Any]) -> List[Any]:
+  """Returns the keys of a dict sorted by symbolic order."""
+  return sorted(
+      value.keys(),
+      key=functools.cmp_to_key(
+          lambda x, y: -1 if lt(x, y) else (1 if lt(y, x) else 0)))
 
 
 def gt(left: Any, right: Any) -> bool:
